@@ -131,6 +131,25 @@ def fname_is_label(f):
     return f in _LABEL_FIELDS
 
 
+def ordered_search_rule(facts, rep, R1):
+    """The cells and names kept in the annotation maps are in registration order (`write_c_string` / `write_label`
+    push), not sorted: a `partition_point` / `binary_search*` over such a list in the relocation code finds the
+    removed window only when the caller happened to register the cells in ascending order."""
+    roots = [b.id for b in (facts.raw_body("%s::%s" % (ARCHIVE, op)) for op in ("allocate", "deallocate", "truncate")) if b is not None]
+    ids, _ext = facts.reachable_from(roots)
+    for i in sorted(ids):
+        b = facts.bodies[i]
+        sorts = any((callee_names(t)[1] or "").rsplit("::", 1)[-1].startswith("sort") for bb, t in b.calls())
+        for bb, t in b.calls():
+            nm = callee_names(t)[1] or callee_names(t)[0] or ""
+            sh = nm.rsplit("::", 1)[-1]
+            if sh in ("partition_point", "binary_search", "binary_search_by", "binary_search_by_key") and "slice" in nm and not sorts:
+                recv_ty = b.local_ty((t["args"][0].get("m") or t["args"][0].get("c") or {"l": 0})["l"]) if t["args"] else ""
+                if "usize" in recv_ty or "String" in recv_ty:
+                    rep.violation(R1, b.name, "ordered-search:" + sh, "%s looks for the affected cells with %s over a list that is kept in registration order (nothing sorts it): cells registered out of ascending order are missed or wrongly dropped" % (
+                        b.name.rsplit("::", 2)[-1] if "closure" not in b.name else b.name.rsplit("::", 2)[-2], sh), "%s:%s" % (b.file, t["line"]))
+
+
 def run(facts, rep, ctx):
     E = Evaluator(facts)
     fields = address_fields(facts)
@@ -154,6 +173,7 @@ def run(facts, rep, ctx):
         if k is None:
             rep.inconc(R2, "field %s has an address-bearing type %s this rule has no element model for" % (name, dict(fields)[name]))
 
+    ordered_search_rule(facts, rep, R1)
     ops = {}
     for op in ("allocate", "deallocate", "truncate"):
         b = facts.body("%s::%s" % (ARCHIVE, op))
@@ -309,6 +329,15 @@ def run(facts, rep, ctx):
                     rep.inconc(R1, "%s updates `%s` in place; only whole-field rebuilds are understood" % (op, name))
                 continue  # R03.2 reports the missing field
             val0 = stores[name]["val"]
+            # the value was built and then edited in place before being stored (`for c in new.values_mut() { .. }`):
+            # its term is only the value as first built
+            from c04 import MUTATORS as _MUT
+            touched = [e2["callee"].rsplit("::", 1)[-1] for e2 in work.events if e2["k"] == "call" and e2["callee"] and e2["args"]
+                       and e2["callee"].rsplit("::", 1)[-1] in _MUT and e2["args"][0][0] == "ref" and e2["args"][0][2]
+                       and strip_refs(e2["args"][0]) == strip_refs(val0) and strip_refs(val0)[0] == "call"]
+            if touched:
+                rep.inconc(R1, "%s builds the new `%s` and then edits it in place (%s) before storing it; only whole-value rebuilds are understood" % (op, name, touched[0]))
+                continue
             late = after_edit_len_reads(work)
             a, S = 16, 64
             mism = []
@@ -522,8 +551,17 @@ def data_edit(facts, rep, R6, ops, E, fields):
                     for t in walk(src):
                         if t[0] == "call" and t[1] and t[1].endswith("from_elem"):
                             zeros = (deref(E.ev(t[2][0], env, b)), deref(E.ev(t[2][1], env, b)))
+                        elif t[0] == "call" and t[1] and t[1].endswith("Iterator::take") and len(t[2]) == 2:
+                            # `repeat(0).take(n)` / `repeat_n(0, n)`
+                            inner = strip_refs(t[2][0])
+                            if inner[0] == "call" and inner[1].rsplit("::", 1)[-1] == "repeat" and inner[2]:
+                                zeros = (deref(E.ev(inner[2][0], env, b)), deref(E.ev(t[2][1], env, b)))
+                        elif t[0] == "call" and t[1] and t[1].rsplit("::", 1)[-1] == "repeat_n" and len(t[2]) == 2:
+                            zeros = (deref(E.ev(t[2][0], env, b)), deref(E.ev(t[2][1], env, b)))
                     good = (lo, hi) == (a, a) and zeros == (0, n)
                     why = "splice range %s..%s with fill %s" % (lo, hi, zeros)
+                    if zeros is None and (lo, hi) == (a, a):
+                        why = "unrecognised edit `splice` (the replacement bytes are not recognised)"
             elif op == "deallocate":
                 good = False
                 why = "unrecognised edit `%s`" % nm
